@@ -500,11 +500,14 @@ func (x *Exec) ghostKeyType(owner *types.Named, g *GhostField) types.Type {
 		if i < 0 {
 			panic(fmt.Errorf("ghost field %s.%s: no real field %s", g.Owner, g.Name, fs[1]))
 		}
-		mt, ok := structFieldType(owner, i).Underlying().(*types.Map)
-		if !ok {
-			panic(fmt.Errorf("ghost field %s.%s: %s is not a Go map", g.Owner, g.Name, fs[1]))
+		switch ft := structFieldType(owner, i).Underlying().(type) {
+		case *types.Map:
+			return ft.Key()
+		case *types.Signature:
+			// a comparator field: keys have the type of its first parameter
+			return ft.Params().At(0).Type()
 		}
-		return mt.Key()
+		panic(fmt.Errorf("ghost field %s.%s: %s is neither a Go map nor a function", g.Owner, g.Name, fs[1]))
 	}
 	return types.Typ[types.Int]
 }
